@@ -128,3 +128,14 @@ func init() {
 func init() {
 	register("C11", ruleImageMethods)
 }
+
+func init() {
+	register("C01", ruleQRModeBits)
+	register("C10", ruleQRModeBits)
+	register("C13", ruleQRModeBits)
+	register("C05", ruleCode128State, ruleGuards)
+	register("C07", ruleCode39Assembly)
+	register("C11", ruleCode39Assembly, ruleAlias)
+	register("C14", ruleScale)
+	register("C16", ruleQRFormulas)
+}
